@@ -6,8 +6,8 @@ import pgenlib
 ID = "C09"
 COQ_FILES = ["Common/Corr.v", "Model/Forms.v", "Proofs/Forms.v", "Props/C09.v"]
 PROPS = "Props/C09.v"
-THEOREMS = ["C09_forms_agree_file", "C09_forms_agree", "C09_forms_agree_mode_none", "C09_inputs_untouched",
-            "C09_compile_all_untouched"]
+THEOREMS = ["C09_forms_agree_file", "C09_forms_agree", "C09_forms_agree_mode_none", "C09_source_info_per_mode",
+            "C09_inputs_untouched", "C09_compile_all_untouched"]
 AXIOMS_OK = []
 TRUSTED = ["hand-written Gallina model Model/Forms.v of compiler.go task.asParseResult / asAST / link (source-info part) and parser.Clone over an abstract heap: clone = fresh object, link = in-place write",
            "correspondence harness harness/cmd/forms (public API only; snapshots by deterministic marshal, reflection-based deep hash of the AST memory, token dump, node-index dump) and the program generator checks/pgenlib.py"]
@@ -15,9 +15,16 @@ ASSUMPTIONS = ["parser, AST-to-proto lowering, linker+option interpretation and 
                "heap aliasing inside protobuf-go messages and inside the AST is abstracted: proto.Clone / parser.Clone give a fresh object with an equal value, the AST object is shared and never written; the harness checks exactly this on the real objects (deep hash before/after)",
                "the concurrent theorem treats asParseResult, link and the source-info step as atomic steps of a task; finer-grained data races are only exercised (thorough tier builds the harness with -race), not proved"]
 
-FORMS = ["source", "ast", "result", "result_noast", "proto", "proto_si"]
-COQ_FORM = {"source": "FSource", "ast": "FAst", "result": "FRes", "result_noast": "FResNoAst", "proto": "FProto", "proto_si": "FProtoSI"}
+FORMS = ["source", "ast", "result", "result_noast", "proto", "proto_si", "result_noast_si"]
+COQ_FORM = {"source": "FSource", "ast": "FAst", "result": "FRes", "result_noast": "FResNoAst", "proto": "FProto", "proto_si": "FProtoSI",
+            "result_noast_si": "FResNoAstSI"}
 HAS_AST = {"source", "ast", "result"}
+# forms without AST whose descriptor already carries the source info an all-source compilation in the same mode produces
+CARRIES_SI = {"proto_si", "result_noast_si"}
+# SourceInfoMode is a set of bits (Standard = 1, ExtraComments = 2, ExtraOptionLocations = 4): every value
+MODES_ALL = [0, 1, 2, 3, 4, 5, 6, 7]
+MODES_NO_STANDARD = [2, 4, 6]
+MODES_STANDARD_PLUS = [3, 5, 7]
 
 
 def break_program(p, rng):
@@ -43,15 +50,21 @@ def run(ctx):
     import time as _t0
     ctx.extra["t_run_start"] = round(_t0.time() - ctx.t0, 1)
     rng = ctx.rng
-    nprog = ctx.budget(32, 250)
+    nprog = ctx.budget(28, 250)
+    nmatrix = ctx.budget(4, 40)        # programs that get the full mode x form matrix
     full_upto = ctx.budget(2, 3)       # programs with at most this many files get every assignment
     sample = ctx.budget(10, 40)        # random assignments for bigger programs
-    modes_all = [0, 1, 3, 7, 2, 4]
+    modes_all = MODES_ALL
     ctx.rule = ("%d generated multi-file programs (1-3 files, proto2/proto3/editions, imports, custom options, extensions, services) and near-valid variants "
-                "that fail while linking; x source-info modes {none, standard, +extra comments, +extra option locations}; x every assignment of an input form "
-                "(source / AST / parser.Result / parser.Result without AST / FileDescriptorProto / FileDescriptorProto with source info attached) per file for programs of <= %d files, "
-                "%d random assignments otherwise; every case compiles twice on the same supplied objects (some with 3 concurrent compilers); "
-                "one evaluation = one (program, mode, assignment); non-trivial = at least one file is not given as source" % (nprog, full_upto, sample))
+                "that fail while linking; x source-info modes (quick tier: none, standard, one of the modes without the Standard bit {2, 4, 6} and one of {3, 5, 7}; "
+                "thorough: all eight values of the bit set); x every assignment of an input form "
+                "(source / AST / parser.Result / parser.Result without AST / FileDescriptorProto / FileDescriptorProto with source info attached / parser.Result without AST "
+                "whose descriptor has source info attached) per file for programs of <= %d files, "
+                "%d random assignments otherwise; the first %d programs get the full matrix: all eight modes x every uniform assignment (all files in the same form) "
+                "x a few mixed ones; every case compiles twice on the same supplied objects (some with 3 concurrent compilers); "
+                "one evaluation = one (program, mode, assignment); non-trivial = at least one file is not given as source. Source info is demanded by the oracle for "
+                "every form with an AST AND for every form whose descriptor carries it (kept as it is, equal to the all-source compilation in the same mode) in every mode but none"
+                % (nprog, full_upto, sample, nmatrix))
     cfg = pgenlib.Cfg(max_files=3, size=2, max_depth=2)
     cases = []
     for pi in range(nprog):
@@ -60,7 +73,7 @@ def run(ctx):
         if broken:
             p = break_program(p, rng)
         n = len(p.order)
-        modes = [0, 1] + [rng.choice(modes_all[2:])] if ctx.tier != "thorough" else modes_all
+        modes = [0, 1, rng.choice(MODES_NO_STANDARD), rng.choice(MODES_STANDARD_PLUS)] if ctx.tier != "thorough" else modes_all
         if n <= full_upto:
             asgs = list(itertools.product(FORMS, repeat=n))
             if ctx.tier != "thorough" and len(asgs) > 24:
@@ -68,13 +81,17 @@ def run(ctx):
         else:
             asgs = [tuple(["source"] * n)] + [tuple(rng.choice(FORMS) for _ in range(n)) for _ in range(sample)]
         deps = deps_of(p)
-        for mode in modes:
-            for asg in asgs:
-                c = {"files": p.files, "order": p.order, "forms": dict(zip(p.order, asg)), "mode": mode, "rounds": 2}
-                if rng.chance(1, 12):
-                    c["concurrent"] = 3
-                    c["par"] = 2
-                cases.append((pi, broken, deps, c))
+        plan = [(mode, asg) for mode in modes for asg in asgs]
+        if pi < nmatrix and not broken:
+            uniform = [tuple([f] * n) for f in FORMS] + [tuple(rng.choice(FORMS) for _ in range(n)) for _ in range(3)]
+            have = set(plan)
+            plan += [(mode, asg) for mode in MODES_ALL for asg in uniform if (mode, asg) not in have]
+        for mode, asg in plan:
+            c = {"files": p.files, "order": p.order, "forms": dict(zip(p.order, asg)), "mode": mode, "rounds": 2}
+            if rng.chance(1, 12):
+                c["concurrent"] = 3
+                c["par"] = 2
+            cases.append((pi, broken, deps, c))
     race = ctx.tier == "thorough"
     outs = ctx.impl("forms", [c for _, _, _, c in cases])
     if race:
@@ -86,7 +103,7 @@ def run(ctx):
                               {"case": c, "report": o["crash"][-1500:]})
     ref = {}
     terms, meta = [], []
-    stats = {"accepted": 0, "rejected": 0, "prep_failed": 0}
+    stats = {"accepted": 0, "rejected": 0, "prep_failed": 0, "by_mode": {}, "carries_si_by_mode": {}}
     for (pi, broken, deps, c), o in zip(cases, outs):
         rep = {"files": c["files"], "order": c["order"], "forms": c["forms"], "mode": c["mode"], "concurrent": c.get("concurrent", 1)}
         if "crash" in o or "panic" in o:
@@ -109,6 +126,9 @@ def run(ctx):
         klass = ("accepted" if ok else "rejected") + ("-concurrent" if c.get("concurrent") else "")
         ctx.count((pi, c["mode"], asg, c.get("concurrent", 1)), nontriv, klass)
         stats["accepted" if ok else "rejected"] += 1
+        stats["by_mode"][c["mode"]] = stats["by_mode"].get(c["mode"], 0) + 1
+        if ok and any(f in CARRIES_SI for f in asg):
+            stats["carries_si_by_mode"][c["mode"]] = stats["carries_si_by_mode"].get(c["mode"], 0) + 1
         if any(bool(e) != bool(errs[0]) for e in errs):
             ctx.violation("repeated-compilation-differs", "compiling again on the same supplied objects changes acceptance", dict(rep, errs=errs))
             continue
@@ -137,7 +157,9 @@ def run(ctx):
             if not core_same:
                 ctx.violation("compiled-descriptor-differs:" + f, "file %s given as %s compiles to a different descriptor than from source" % (n, f),
                               dict(rep, file=n))
-            if f in HAS_AST and c["mode"] != 0:
+            if (f in HAS_AST or f in CARRIES_SI) and c["mode"] != 0:
+                # forms with an AST get generated source info; a descriptor that already carries source info keeps it
+                # (only SourceInfoNone strips), and the harness attached exactly what the all-source compilation produces
                 if not r0[n]["has_si"] or not si_same:
                     ctx.violation("source-info-differs:" + f, "file %s given as %s has %s source info (the mode asks for it; reference: every file given as source)" % (
                         n, f, "no" if not r0[n]["has_si"] else "different"), dict(rep, file=n))
@@ -154,6 +176,9 @@ def run(ctx):
     ctx.extra["c09_stats"] = stats
     if stats["accepted"] < 50:
         raise RuntimeError("too few accepted cases: %r" % stats)
+    for m in MODES_ALL:
+        if stats["carries_si_by_mode"].get(m, 0) < 3:
+            raise RuntimeError("too few accepted cases with a source-info-carrying descriptor under mode %d: %r" % (m, stats))
     header = ("From Coq Require Import List NArith Bool.\nImport ListNotations.\n"
               "From PV Require Import Common.Corr Model.Forms.\n")
     # identical (shape, mode, observation) terms are evaluated once
